@@ -67,7 +67,9 @@ class ConcP:
         self.evaluated.append(label)
         ok = _close(got, want)
         if not ok:
-            self.failures.append((label, {"got": _js(got), "want": _js(want)}))
+            dd = dict(detail or {})
+            dd.update({"got": _js(got), "want": _js(want)})
+            self.failures.append((label, dd))
         return ok
 
     def check(self, label, cond, detail=None):
